@@ -144,7 +144,7 @@ func init() {
 			// iteration order of every key are part of the transcript
 			n := 60 + p.r.Intn(340)
 			salt := p.r.Intn(1000)
-			p.w("def %s_build(n, salt, rounds):\n    out = []\n    for rd in range(rounds):\n        d = {}\n        bad = []\n        keys = [\"key_%%d_%%d_%%d_long_string_suffix\" %% (salt, rd, i * 7919 %% 100003) for i in range(n + rd * 13)]\n        for i, k in enumerate(keys):\n            d[k] = i\n            if k not in d or d.get(k) != i or len(d) != i + 1 - len([1 for j in range(0, i, 3) if j + 1 < i and False]): bad.append((\"after-insert\", k, len(d)))\n        for k in keys[::3]: d.pop(k)\n        for k in keys[::6]: d[k] = -1\n        member = [k in d for k in keys]\n        looked = [d.get(k) for k in keys]\n        out.append((bad, member, looked, len(d), list(d), d.items()[:5], d.popitem()))\n    return out", g)
+			p.w("def %s_build(n, salt, rounds):\n    out = []\n    for rd in range(rounds):\n        d = {}\n        bad = []\n        keys = [\"key_%%d_%%d_%%d_long_string_suffix\" %% (salt, rd, i * 7919 %% 100003) for i in range(n + rd * 13)]\n        for i, k in enumerate(keys):\n            d[k] = i\n            if k not in d or d.get(k) != i or len(d) != i + 1: bad.append((\"after-insert\", k, len(d)))\n        for k in keys[::3]: d.pop(k)\n        for k in keys[::6]: d[k] = -1\n        member = [k in d for k in keys]\n        looked = [d.get(k) for k in keys]\n        out.append((bad, member, looked, len(d), list(d), d.items()[:5], d.popitem()))\n    return out", g)
 			p.w("%s_res = %s_build(%d, %d, %d)", g, g, n, salt, 3+p.r.Intn(4))
 			p.w("%s_comp = {k: v for k, v in [(\"comp_key_%%d_long_enough_suffix\" %% i, i) for i in range(%d)]}\n%s_in = [(\"comp_key_%%d_long_enough_suffix\" %% i) in %s_comp for i in range(0, %d, 2)]", g, n, g, g, n+40)
 		}},
